@@ -8,7 +8,7 @@ ids = [a for a in sys.argv[3:] if a not in ("quick", "thorough")] or [f"C{i:02d}
 diff = os.path.join(d, f"{v}.diff")
 # /repo is shared with whoever runs checks on the unchanged tree: hold a lock while it carries the change
 import fcntl
-_lock = open("/tmp/seed/repo.lock", "w")
+_lock = open("/root/work/seed/repo.lock", "w")
 fcntl.flock(_lock, fcntl.LOCK_EX)
 assert subprocess.run(["git", "-C", "/repo", "status", "--porcelain", "-uno"], capture_output=True, text=True).stdout.strip() == "", "/repo not clean"
 r = subprocess.run(["git", "-C", "/repo", "apply", diff], capture_output=True, text=True)
